@@ -5,7 +5,7 @@ TECH = "bounded symbolic execution of the real pymodbus code (CrossHair) with z3
 CHECKS = {}
 CHECKS["C18"] = dict(cat="model_checking", ref="DESIGN.md 4/C18",
     text="Solver-decided single-step obligations over an arbitrary block state (symbolic start, length<=6, contents, address, count): validate iff range inside, read returns the cells, write changes exactly the addressed cells, reset, zero-mode offset and fc->table map for all ten codes, server-context routing over a symbolic unit dict. Every path z3-checked; bounded, not a proof.",
-    note="Bounds: block length 1..6 (sparse: subsets of a 4-address window at bases 0/65530), 1..4 written values, <=3 hosted units. Induction from one step to histories is an argument on paper. Trusts CrossHair's Python models and z3.",
+    note="Bounds: block length 1..6 (sparse: subsets of a 4-address window at bases 0/65530), 1..4 written values, <=3 hosted units. Induction from one step to histories is an argument on paper. Trusts CrossHair's Python models and z3. Sparse blocks are built by the real constructor with a symbolic key subset and insertion order; reset() keeps the address map.",
     technique=TECH)
 CHECKS["C01"] = dict(cat="model_checking", ref="DESIGN.md 4/C01",
     text="Every encode()/decode() in the server and client decoder tables (incl. diagnostic sub-classes and exception responses) is executed symbolically on arbitrary spec-conformant body bytes of a concrete shape and compared with reference layouts written from the Modbus Application Protocol v1.1b3; bit packing is proved against its arithmetic form by direct AST->z3 translation (lemma K3). z3 decides every path; bounded (list lengths per obligation), not a proof.",
@@ -65,7 +65,7 @@ CHECKS["C12"] = dict(cat="model_checking", ref="DESIGN.md 4/C12",
     technique=TECH)
 CHECKS["C17"] = dict(cat="model_checking", ref="DESIGN.md 4/C17",
     text="Differential symbolic model checking: the synchronous, asyncio and Twisted front-ends (stream trio and datagram trio) are run on the SAME symbolic request bytes (1-2 requests of a given function code, every body byte, ids and the initial coils/registers symbolic; valid and invalid requests alike) on copies of the same datastore: outputs byte-identical, final datastores identical, same decision to give the connection up. Interleaving obligation: two connections with reads a1, b, a2 (a split ASCII frame) get exactly the output they get alone - framing state is per connection.",
-    note="No reference model is needed (the front-ends are each other's oracle), so any request body is in scope. Only features all front-ends support (no broadcast). Sync interleaving is emulated at recv() boundaries. Twisted UDP's shared, never-reset framer is a listed known finding.",
+    note="No reference model is needed (the front-ends are each other's oracle), so any request body is in scope. Only features all front-ends support (no broadcast). Sync interleaving is emulated at recv() boundaries. Twisted UDP's shared, never-reset framer is a listed known finding. idle-timeout.*: recv() time-outs on the synchronous stream handler before/between requests (and around a split ASCII frame) change nothing.",
     technique=TECH)
 CHECKS["C08"] = dict(cat="model_checking", ref="DESIGN.md 4/C08",
     text="A whole synchronous client transaction (BaseModbusClient.execute, ModbusTransactionManager.execute/_transact/_recv, framer receive path, ClientDecoder) is executed symbolically from a SYMBOLIC transaction-id counter against ANY reply bytes of the stated length: whatever is returned is an error object or a response decoded from a checksum-valid frame in the received bytes that carries the request's transaction id (TCP) / unit id (serial) and the request's function code or that code | 0x80; stale valid frames before the right reply are covered too. The 'well-formed reply is returned decoded' clause is decided by C14's exact.* obligations.",
@@ -73,11 +73,11 @@ CHECKS["C08"] = dict(cat="model_checking", ref="DESIGN.md 4/C08",
     technique=TECH)
 CHECKS["C13"] = dict(cat="model_checking", ref="DESIGN.md 4/C13",
     text="The client transaction loop (retry loop, _transact error handling, framer reset, _recv) is executed symbolically with a SYMBOLIC choice of transport behaviour per attempt (full reply, exception reply, nothing, half a reply, symbolic garbage, other-unit frame, stale reply, OSError): the call returns an error object or a response without raising, transmits at most 1+retries times, and a following healthy transaction returns its own correct reply; the documented retry options are checked on two-attempt scripts; the TCP client's deadline loop terminates under a symbolic clock that advances at least timeout/4 per observation.",
-    note="Scripts of 1+retries attempts, retries 0..1 quick (0..2 thorough); scripted transport and clock are the environment; time.sleep no-op. RTU/binary: garbage and half frames assumed not checksum-valid under the uninterpreted CRC. Two listed known findings: exceptions escaping execute() on garbage (ASCII/binary), retry_on_empty alone never retries.",
+    note="Scripts of 1+retries attempts, retries 0..1 quick (0..2 thorough); scripted transport and clock are the environment; time.sleep no-op. RTU/binary: garbage and half frames assumed not checksum-valid under the uninterpreted CRC. Two listed known findings: exceptions escaping execute() on garbage (ASCII/binary), retry_on_empty alone never retries. peerclose.*: a connection the peer closed after k reply bytes (k symbolic) stays dead until the client closes it; a close after the header (k >= 8 on TCP) is the listed finding KF-client-keeps-dead-connection-after-truncated-reply.",
     technique=TECH)
 CHECKS["C15"] = dict(cat="other", ref="DESIGN.md 4/C15",
     text="Thread schedules cannot be explored by this family of technique. The property is reduced to a lock-discipline premise that IS decided symbolically on the real code: under symbolic transport faults (incl. exceptions) every access to the shared transaction state (transport send/recv/connect/close, framer buffer, transaction-id counter, reply slots) happens while one and the same lock reachable from the client is owned, and no lock is owned after execute() returns or raises. Lock discipline + release on every exit implies serialisability of whole transactions (stated reduction); serial behaviour is C08/C13/C14.",
-    note="Not an exploration of interleavings: a race in code that bypasses the monitored accesses would be missed. If a reduction is not accepted as deciding a schedule property, C15 is not applicable to this technique family for that reason. Trusts CPython's RLock.",
+    note="Not an exploration of interleavings: a race in code that bypasses the monitored accesses would be missed. If a reduction is not accepted as deciding a schedule property, C15 is not applicable to this technique family for that reason. Trusts CPython's RLock. Calls enter through BaseModbusClient.execute from a symbolic client.state; the connect() that method makes before the lock is the listed finding KF-connect-outside-transaction-lock (prelock-connect.tcp) and is excluded from lock.* by call site.",
     technique="lock-discipline premise checked by bounded symbolic execution (CrossHair + z3) of the real transaction code; schedule quantifier by a stated reduction")
 CHECKS["C16"] = dict(cat="model_checking", ref="DESIGN.md 4/C16",
     text="The Twisted ModbusClientProtocol is executed symbolically from a SYMBOLIC transaction-id counter (wrap at 0xFFFF included): three outstanding requests get distinct 16-bit ids, every arrival order of the replies fires each deferred exactly once with its own reply, an unsolicited reply (symbolic foreign id) and a duplicate change nothing; connection loss at every point fails exactly the pending deferreds with ConnectionException and later requests fail likewise; an inductive step from an arbitrary pending set (symbolic ids) decides id reuse; the serial FIFO variant matches replies in order.",
